@@ -1,27 +1,59 @@
 /- C01 — names bound at run time are visible.  Statements only; proofs in Den/Lemmas*.lean. -/
-import SuppModel.Den.Lemmas3
+import SuppModel.Den.Lemmas5
 import SuppModel.Props.C02
 namespace SuppModel.Props.C01
 open SuppModel.Den
 
-/-- the full-strength statement (full grammar of one scope body: jumps and raise points anywhere): if some execution
-    evaluates read `r` in a state where `x` is bound — by an earlier event of the same scope body, or already on entry
-    with the entry table listing a definition — supp's answer for `x` at `r` contains a definition.
-    NOT proved in this development (the induction over executions with jumps is missing); it is exercised by the CPython
-    oracle of harness/c01.py on the full grammar.  Proved: the same statement on the C02 fragment
-    (`C01_visible_partial`), the table-level monotonicity for the full grammar (`C01_keys_grow`) and the entry table of
-    nested function scopes (`C01_outer`). -/
-def C01_visible_stmt : Prop :=
-  ∀ (ks : List Ident) (s : Stmt) (σ σr : State) (r : RId) (x : Ident) (T F : Tbl) (d : Site),
-    wf s = true → r ∉ nestedReads s → Reach s σ r σr → σr x = some d →
-    ((∃ d', σ x = some d') → HasDef (T.get x)) → HasDef ((at_ ks s r T F).get x)
+/-- C01 (full grammar of one scope body: jumps — break / continue / return / raise — and raise points anywhere, loops,
+    try / except / else / finally, definitions): if some execution evaluates read `r` in a state where `x` is bound — by
+    an earlier event of the same scope body, or already on entry with the entry table listing a definition — then
+    supp's answer for `x` at `r` contains a definition (supp does not answer "undefined").
+    `wf s`: handler chains only inside `tryx`, for-targets are bindings, no binding of a name declared `global`
+    (comprehensions have no execution rule: reads inside them are not covered, see the harness evidence).
+    Proof: `exec_vis` (induction over executions: every binding that can precede `r` on any path — jumps only go
+    forward / outward, `finally` runs on every outcome — is in the part of `s` supp puts before `r`, `GA1`) and
+    `pass_or_gen` (a region never loses a name). -/
+theorem C01_visible (ks : List Ident) (s : Stmt) (σ σr : State) (r : RId) (x : Ident) (T F : Tbl) (d : Site)
+    (hwf : wf s = true) (hown : r ∉ nestedReads s) (hreach : Reach s σ r σr) (hx : σr x = some d)
+    (hT : (∃ d', σ x = some d') → HasDef (T.get x)) :
+    HasDef ((at_ ks s r T F).get x) := by
+  rcases ((exec_vis x hreach).1 hwf).2 r rfl ⟨d, hx⟩ with ⟨d', hg⟩ | ⟨hp, hb⟩
+  · exact ⟨d', (at_normal ks s r T F x (some d') hown).2 (.inl hg)⟩
+  · obtain ⟨d', hd⟩ := hT hb
+    exact ⟨d', (at_normal ks s r T F x (some d') hown).2 (.inr ⟨hp, hd⟩)⟩
 
-/-- C01 on the structured fragment (no jumps): a read that finds `x` bound is never answered "undefined" -/
+/-- the same for the table after a statement, whatever way it is left (normally, by a jump, by an exception) -/
+theorem C01_visible_after (ks : List Ident) (s : Stmt) (σ σ' : State) (o : Outcome) (x : Ident) (T : Tbl) (d : Site)
+    (hwf : wf s = true) (hexec : Exec s σ o σ') (ho : ∀ r, o ≠ .stop r) (hx : σ' x = some d)
+    (hT : (∃ d', σ x = some d') → HasDef (T.get x)) :
+    HasDef ((A ks s T).get x) := by
+  rcases ((exec_vis x hexec).1 hwf).1 ho ⟨d, hx⟩ with ⟨d', hg⟩ | ⟨hp, hb⟩
+  · exact ⟨d', (A_normal ks s T x (some d')).2 (.inl hg)⟩
+  · obtain ⟨d', hd⟩ := hT hb
+    exact ⟨d', (A_normal ks s T x (some d')).2 (.inr ⟨hp, hd⟩)⟩
+
+/-- non-vacuity: `while …: a = …; break` then a read of `a`; the execution leaves the loop by the jump -/
+def exBreak : Stmt := .seq (.while_ .skip (.seq (.bind "a" 1) .brk) .skip) (.read "a" 2)
+example : wf exBreak = true := by decide
+example : Reach exBreak State.init 2 (State.init.upd "a" 1) :=
+  .seqN (.whileBrk .skip (.seqN .bind .brk)) .readStop
+example : HasDef ((at_ [] exBreak 2 Tbl.empty Tbl.empty).get "a") :=
+  C01_visible [] exBreak State.init _ 2 "a" Tbl.empty Tbl.empty 1 (by decide) (by decide)
+    (.seqN (.whileBrk .skip (.seqN .bind .brk)) .readStop) (by simp [State.upd]) (by simp [State.init])
+
+/-- non-vacuity: an exception raised in the middle of a try body, read in the handler -/
+def exRaise : Stmt :=
+  .tryx false false (.seq (.bind "a" 1) (.seq .raise_ (.bind "a" 2))) (.hcons .skip .skip (.read "a" 3) .hnil) .skip
+example : wf exRaise = true := by decide
+example : Reach exRaise State.init 3 (State.init.upd "a" 1) :=
+  .tryX (.seqN .bind (.seqA .raise_ (by simp))) (.hMatch .skip .skip .readStop)
+
+/-- on the structured fragment (no jumps) the answer even contains the very definition that is read (from C02) -/
 theorem C01_visible_partial (ks : List Ident) (s : Stmt) (σ σr : State) (r : RId) (x : Ident) (T F : Tbl) (d : Site)
-    (hfrag : inC02 s = true) (hown : r ∉ nestedReads s) (hreach : Reach s σ r σr) (hx : σr x = some d)
-    (hT : ∀ d', σ x = some d' → some d' ∈ T.get x) :
+    (hfrag : inC02 s = true) (hown : r ∉ nestedReads s) (hlate : lateRead s r x = false) (hreach : Reach s σ r σr)
+    (hx : σr x = some d) (hT : ∀ d', σ x = some d' → some d' ∈ T.get x) :
     HasDef ((at_ ks s r T F).get x) :=
-  ⟨d, C02.C02_sound ks s σ σr r x T F d hfrag hown hreach hT hx⟩
+  ⟨d, C02.C02_sound ks s σ σr r x T F d hfrag hown hlate hreach hT hx⟩
 
 /-- key sets only grow along a region, whatever jumps and raise points the statement contains (supp ignores them):
     a name that has a definition before `s` has one after `s` -/
